@@ -934,6 +934,12 @@ VmTrap vm_core_execute(VmState *vm) {
              * after the CALL in the caller) before we pop the frame */
             uint32_t ret_ip = frame->return_ip;
 
+            /* The frame owns the reference CALL_INDIRECT / CLOSURE_CALL popped */
+            if (frame->closure) {
+                vm_release(&vm->heap, val_closure(frame->closure));
+                frame->closure = NULL;
+            }
+
             vm->frame_count--;
 
             if (vm->frame_count == 0) {
